@@ -579,15 +579,20 @@ class TT():
                             0, 0, 0, 0, 0, 0 if i == 0 else 1)
                     pad2 = (0 if i == len(
                         self.__N)-1 else self.__R[i+1], 0, 0, 0, 0, 0, 0 if i == 0 else self.R[i], 0)
+                    # the sign is applied to the core, not to the scalar: unsigned scalars wrap around under negation
                     othr = tn.ones(
-                        [1, 1, 1, 1], dtype=self.cores[i].dtype) * (-other if i == 0 else 1)
+                        [1, 1, 1, 1], dtype=self.cores[i].dtype) * (other if i == 0 else 1)
+                    if i == 0:
+                        othr = -othr
                 else:
                     pad1 = (0, 0 if i == len(self.__N)-1 else 1,
                             0, 0, 0, 0 if i == 0 else 1)
                     pad2 = (0 if i == len(
                         self.__N)-1 else self.__R[i+1], 0, 0, 0, 0 if i == 0 else self.R[i], 0)
                     othr = tn.ones(
-                        [1, 1, 1], dtype=self.cores[i].dtype) * (-other if i == 0 else 1)
+                        [1, 1, 1], dtype=self.cores[i].dtype) * (other if i == 0 else 1)
+                    if i == 0:
+                        othr = -othr
                 cores.append(tnf.pad(self.cores[i], pad1)+tnf.pad(othr, pad2))
             result = TT(cores)
 
